@@ -236,6 +236,8 @@ STATIC = [
          clause="whatever kind of error ends a top-level evaluation, the frames above the level recorded before it are removed (or reset_stack itself gave up); the evaluation's own error is reported, a panic with its stack trace"),
     dict(engine="verus", unit="toplevel", function="execute_io_top::on_error", name="C06/thread/execute_io_top_on_error", source="vm/src/thread.rs::ThreadInternal::execute_io_top (body of the or_else closure)",
          clause="the same guarantee for the IO entry point: whatever kind of error ends a top-level IO action, the frames above the recorded level are removed"),
+    dict(engine="verus", unit="modload", function="global_inner::evaluate_module", name="C06/query/global_inner_evaluates_with_reset", source="src/query.rs::global_inner (the statement evaluating the module's top-level expression)",
+         clause="a module whose top-level evaluation fails leaves the VM stack as it found it (the evaluation goes through the entry point that resets the stack on error)"),
     dict(engine="verus", unit="toplevel", function="reset_after_error", name="C06/thread/reset_after_error", source="vm/src/thread.rs::reset_after_error",
          clause="the helper used by host calls: frames above the recorded level removed (or reset_stack gave up), the call's own error reported"),
     dict(engine="verus", unit="toplevel", function="call_any_first::after_call", name="C06/api/call_any_first_after_call", source="vm/src/api/function.rs::Function::call_any_first (from the call of the interpreter to the end; Function::call is generated from the same text by make_vm_function!)",
